@@ -4,6 +4,10 @@ impl State {
     spec fn in_ref(&self) -> int { self.bitstr_mod.input.0 as int }
     spec fn off_ref(&self) -> int { self.bitstr_mod.offset.0 as int }
     spec fn stash_ref(&self) -> int { self.bitstr_mod.stash.0 as int }
+    spec fn big_ref(&self) -> int { self.bitstr_mod.big_endian.0 as int }
+    // the session byte order: the variable `big?` (zero = little endian)
+    spec fn cur_bo(&self) -> Byteorder { if strip(self.heap@[self.big_ref()]) == Cell::Int(0) { Byteorder::Little } else { Byteorder::Big } }
+    spec fn bo_ok(&self) -> bool { self.ctx.mode != ContextMode::MetaEval && self.big_ref() < self.heap@.len() }
 
     // the cursor variables exist, are distinct cells and hold an input and an offset inside it
     spec fn cursor_ok(&self) -> bool {
